@@ -142,6 +142,22 @@ theorem list_exact (s : Store K) (nonce : Bytes) (fs : FS) (id id' : Id) (b : By
     · rw [delete_read_other id' [id] fs (by simp [h])]
       simp [h]
 
+/-- **While a `Set` is in progress the listing holds exactly the stored ids and the id being stored, and
+    nothing else** — for *every* intermediate content `written` of the file (nothing yet, the header, header and
+    nonce, any number of sealed blocks): the file a `Set` is writing has the id's own name from the first
+    moment on, so a `List` that overlaps a `Set` of another id returns every stored id, possibly the id being
+    stored, and never a name that was not given to `Set` (no temporary name, no zero id); no id twice.
+    (The `store` dialect's `B`/`E`/`A` operations and the oracle's `listflight` case hold a `Set` open on the
+    real store and compare.) -/
+theorem list_exact_in_flight (fs : FS) (id id' : Id) (written : Bytes) :
+    (id' ∈ Store.list (Store.setInFlight fs id written) ↔ id' = id ∨ id' ∈ Store.list fs) ∧
+    (fs.WF → (Store.list (Store.setInFlight fs id written)).Nodup) := by
+  refine ⟨?_, fun h => FS.wf_write fs id _ h⟩
+  simp only [Store.list, Store.setInFlight, FS.mem_ids_iff_read]
+  by_cases h : id' = id
+  · subst h; simp
+  · simp [FS.read_write_other fs id id' _ h, h]
+
 /-! ## Altered, truncated, foreign files -/
 
 /-- **Whatever is in the file, `Get` only decodes what this key sealed** (needs `AEAD` only) — for
@@ -356,6 +372,94 @@ theorem truncate_after_nonce_detected_unless_swallowed (cfg : Config) (P : Prims
   rw [hE]
   simp [finish, hsw]
 
+/-! ### Interrupted `Set`, and results as values -/
+
+/-- **What an interrupted `Set` leaves reads back like a file cut on a block boundary** — the reader handed to
+    `Set` failed (or the process died) when the write loop had sealed the full blocks `pre` of the compressed
+    stream (`post ≠ []`: at least the last block was still missing): the id is listed (it was given to `Set`, and
+    no other name appears), other ids read as before, and `Get` of the id returns whatever the LZ4 reader makes
+    of that strict prefix of the frame followed by a clean end of stream — the situation of
+    `truncation_at_block_boundary`; whatever was stored under the id before is gone (`O_TRUNC`). -/
+theorem interrupted_set_reads_as_truncation (s : Store K) (hL : Laws s.P) (hb : 0 < s.cfg.blockSize)
+    (nonce : Bytes) (hn : nonce.length = s.P.nonceSize) (fs : FS) (id : Id) (b : Bytes) (pre post : List Bytes)
+    (hps : cut s.cfg.blockSize (s.P.compress b) = pre ++ post) (hpost : post ≠ []) :
+    s.get (s.setInterrupted nonce fs id pre) id = finish s.cfg (s.P.decode pre.flatten .eof) ∧
+    (∀ id', id' ≠ id → s.get (s.setInterrupted nonce fs id pre) id' = s.get fs id') ∧
+    (∀ id', id' ∈ Store.list (s.setInterrupted nonce fs id pre) ↔ id' = id ∨ id' ∈ Store.list fs) := by
+  refine ⟨?_, ?_, ?_⟩
+  · rw [Store.setInterrupted, get_write]
+    exact truncation_at_block_boundary s.cfg s.P hL hb s.key nonce hn b pre post hps hpost
+  · intro id' hne
+    simp only [Store.get, Store.setInterrupted, FS.read_write_other fs id id' _ hne]
+  · intro id'
+    exact (list_exact_in_flight fs id id' _).1
+
+/-- **An interrupted `Set` is answered with an error afterwards** (`_partial`: hypothesis `hPF`,
+    *LZ4PrefixRejected*, as in `truncation_detected_partial` — false for the real reader when the last sealed
+    block ends exactly on an LZ4 data-block boundary, finding C09-F2): `Get` of the id returns an error, never
+    a part of the message. -/
+theorem interrupted_set_detected_partial (s : Store K) (hL : Laws s.P) (hb : 0 < s.cfg.blockSize)
+    (nonce : Bytes) (hn : nonce.length = s.P.nonceSize) (fs : FS) (id : Id) (b : Bytes) (pre post : List Bytes)
+    (hps : cut s.cfg.blockSize (s.P.compress b) = pre ++ post) (hpost : post ≠ [])
+    (hPF : s.P.decode pre.flatten .eof = .bad) :
+    s.get (s.setInterrupted nonce fs id pre) id = .err .corrupt := by
+  rw [(interrupted_set_reads_as_truncation s hL hb nonce hn fs id b pre post hps hpost).1, hPF]
+  rfl
+
+/-- **A `Set` interrupted before its first block was complete is answered with an error, in the current
+    source** — no sealed block on disk (the common case: less than `blockSize` bytes of compressed data had
+    arrived): with the regenerated `gluonCfg` (`Get` does not swallow `io.EOF`) and the LZ4 reader returning
+    `io.EOF` on an empty source, `Get` returns an error, not the empty message. -/
+theorem interrupted_set_before_first_block_detected (s : Store K) (hc : s.cfg = gluonCfg) (hE : EmptyIsEOF s.P)
+    (nonce : Bytes) (hn : nonce.length = s.P.nonceSize) (fs : FS) (id : Id) :
+    s.get (s.setInterrupted nonce fs id []) id = .err .corrupt := by
+  rw [Store.setInterrupted, get_write]
+  simp only [List.map_nil, List.flatten_nil, List.append_nil]
+  exact truncate_after_nonce_detected_unless_swallowed s.cfg s.P s.key nonce hn (by rw [hc]; decide) hE
+
+/-- **What a call returned is not changed by any later call** — for every history `ops` and every continuation
+    `more` (further `Get`s of the same or of other ids, `Set`s, `Delete`s, `List`s): the results of `ops` are
+    exactly the first results of `ops ++ more`; in particular the bytes an earlier `Get` returned stay the bytes
+    that were stored at that moment, whatever is read, overwritten or deleted afterwards.  In the model this is
+    immediate — `Get` returns a value; the point is the tie: the `store` dialect's runner and the oracle's
+    `lifetime` case keep every slice the real `Get` returned and compare it again after each later operation
+    (a `Get` that hands out memory it re-uses for the next call breaks exactly this). -/
+theorem get_result_stable (s : Store K) (fs : FS) (ops more : List Store.Op) :
+    s.run fs (ops ++ more) = s.run fs ops ++ s.run (s.final fs ops) more ∧
+    (s.run fs (ops ++ more)).take (s.run fs ops).length = s.run fs ops ∧
+    (∀ (i : Nat) (id : Id), ops[i]? = some (.get id) →
+      ∃ fs', (s.run fs ops)[i]? = some (.got (s.get fs' id)) ∧
+             (s.run fs (ops ++ more))[i]? = some (.got (s.get fs' id))) := by
+  have happ : ∀ (ops : List Store.Op) (fs : FS),
+      s.run fs (ops ++ more) = s.run fs ops ++ s.run (s.final fs ops) more := by
+    intro ops
+    induction ops with
+    | nil => intro fs; rfl
+    | cons op rest ih => intro fs; simp only [List.cons_append, Store.run, Store.final, ih]
+  refine ⟨happ ops fs, by rw [happ ops fs, List.take_left'] ; rfl, ?_⟩
+  intro i id hi
+  have hget : ∀ (ops : List Store.Op) (fs : FS) (i : Nat), ops[i]? = some (.get id) →
+      ∃ fs', (s.run fs ops)[i]? = some (.got (s.get fs' id)) := by
+    intro ops
+    induction ops with
+    | nil => intro fs i h; simp at h
+    | cons op rest ih =>
+      intro fs i h
+      cases i with
+      | zero =>
+        simp only [List.getElem?_cons_zero, Option.some.injEq] at h
+        subst h
+        exact ⟨fs, by simp [Store.run, Store.step]⟩
+      | succ j =>
+        simp only [List.getElem?_cons_succ] at h
+        obtain ⟨fs', h'⟩ := ih (s.step fs op).1 j h
+        exact ⟨fs', by simp only [Store.run, List.getElem?_cons_succ, h']⟩
+  obtain ⟨fs', h'⟩ := hget ops fs i hi
+  refine ⟨fs', h', ?_⟩
+  rw [happ ops fs, List.getElem?_append_left, h']
+  have := List.getElem?_eq_some_iff.mp h'
+  exact this.1
+
 /-- **The file format authenticates blocks one by one, not their order or number** — for *any*
     list of well-shaped plain-text blocks `qs` (full blocks, then one non-empty block), sealed under
     the file's key and nonce and written after the header: every piece opens and `Get` returns
@@ -495,6 +599,20 @@ example :
     (cut 4 (s.P.compress [1, 2, 3, 4, 5])).length = 3 ∧
     s.get (s.set [8] FS.empty 1 [1, 2, 3, 4, 5]) 1 = .ok [1, 2, 3, 4, 5] ∧
     s.get (s.set [8] FS.empty 1 []) 1 = .ok [] := by
+  decide
+
+/-- an interrupted `Set`, a `List` during a `Set`, and a history, computed: overwriting id 1 fails after the
+    first sealed block (the prefix `[77, 2, 1]` of the toy frame is rejected by the toy reader) — `Get` answers
+    an error; while id 2 is being stored the listing is exactly {2, 1}; results of a history stay as returned -/
+example :
+    let s : Store Nat := { cfg := { header := [9], blockSize := 3, swallowEOF := false, fallback := none },
+                           P := Toy.prims 1 2, key := 5 }
+    cut 3 (s.P.compress [1, 2, 3]) = [[77, 2, 1]] ++ [[2, 1, 3], [0]] ∧
+    s.P.decode [77, 2, 1] .eof = .bad ∧
+    s.get (s.setInterrupted [8] (s.set [7] FS.empty 1 [4, 4]) 1 [[77, 2, 1]]) 1 = .err .corrupt ∧
+    Store.list (Store.setInFlight (s.set [7] FS.empty 1 [4, 4]) 2 [9]) = [2, 1] ∧
+    s.run FS.empty [.set 1 [7] [4, 4], .get 1, .set 1 [8] [5], .get 1, .delete [1], .get 1]
+      = [.done, .got (.ok [4, 4]), .done, .got (.ok [5]), .deleted none, .got (.err .notFound)] := by
   decide
 
 /-- `Unforged` instance: in the toy, a sealed block with one byte changed is not a sealed block -/
